@@ -24,7 +24,7 @@ func init() {
 			"proceeds to rate limiting. The single exception is the FORMERR answer for a malformed ECS option, which " +
 			"C05 demands and which is written before any access decision.",
 		NotCovered: "what the urlfilter engines behind IsBlockedHost / blockedHostsEng match; effects inside third-party libraries reached from the access decision.",
-		Rules: map[string]string{"C10-R10": "codecs return a nil sub-message only for a nil input; access.Global keeps the whole configured subnet list and IsBlockedIP is a membership test on it", 
+		Rules: map[string]string{"C10-R10": "codecs return a nil sub-message only for a nil input; access.Global keeps the whole configured subnet list and IsBlockedIP is a membership test on it",
 			"C10-R1": "decision tables of isBlockedByNets, matchASNs, IsBlocked, isBlockedByAccess",
 			"C10-R2": "Wrap closure: location stored before the decision; blocked edge silent; other edge proceeds",
 			"C10-R4": "question names are normalised before they are matched against access rules",
@@ -486,7 +486,6 @@ func c10AccessCodec(c *an.Ctx) {
 		"BlocklistDomainRules": ".BlocklistDomainRules"})
 }
 
-
 // c10Global: the global blocklist of client subnets.
 func c10Global(c *an.Ctx) {
 	decide(c, "C10-R10", "access.(*Global).IsBlockedIP", an.DecideCfg{
@@ -542,7 +541,6 @@ func c10Global(c *an.Ctx) {
 	c.Check(n == 1 && bad == "", "C10-R10", "access.NewGlobal keeps the whole subnet list", fn.Pos(),
 		"the subnet set is the configured list itself", fmt.Sprintf("%d stores; %s", n, bad))
 }
-
 
 // nilWhenDisabled lists the converters that also return nil for a present but
 // switched-off message, confirmed by reading: the decoder of the same message
